@@ -44,6 +44,10 @@ type Case struct {
 	// bytes instead of Hex, and only the listed cut positions are tried.
 	BigLen int   `json:"big_len,omitempty"`
 	Cuts   []int `json:"cuts,omitempty"`
+	// CutsFirst: the truncated prefixes are decoded before the complete
+	// encoding is (whatever a decoder learns about a type from its first,
+	// failing, attempt must not make it lenient afterwards)
+	CutsFirst bool `json:"cuts_first,omitempty"`
 }
 
 // bigData builds the encoding of a big case: a message with a BigLen byte
@@ -132,6 +136,7 @@ func genCase(t *rapid.T) Case {
 		v = gen.DrawValue(t, ty, vo)
 	}
 	c.Sig = ty.Sig()
+	c.CutsFirst = rapid.Bool().Draw(t, "cutsfirst")
 	c.Hex = hex.EncodeToString(ref.Encode(ty, v))
 	c.Desc = ref.Render(v)
 	if len(c.Desc) > 300 {
@@ -258,8 +263,16 @@ func checkCase(c Case) error {
 		return nil
 	}
 	// the complete encoding must be accepted (otherwise the cuts prove nothing)
-	if err, p := decode(c, ty, hio.NewFragReader(data, c.Chunks, c.EOFWith)); err != nil || p != nil {
-		return vt.Violationf("C08:"+c.Decoder+":complete-rejected", "%s decoder rejects the complete encoding of %s %s: %v %v", c.Decoder, c.Sig, c.Desc, err, p)
+	complete := func() error {
+		if err, p := decode(c, ty, hio.NewFragReader(data, c.Chunks, c.EOFWith)); err != nil || p != nil {
+			return vt.Violationf("C08:"+c.Decoder+":complete-rejected", "%s decoder rejects the complete encoding of %s %s: %v %v", c.Decoder, c.Sig, c.Desc, err, p)
+		}
+		return nil
+	}
+	if !c.CutsFirst {
+		if err := complete(); err != nil {
+			return err
+		}
 	}
 	nontrivialCuts := 0
 	cuts := c.Cuts
@@ -286,6 +299,12 @@ func checkCase(c Case) error {
 		if idx > 0 && k > sp.Start {
 			nontrivialCuts++
 		}
+	}
+	if c.CutsFirst {
+		if err := complete(); err != nil {
+			return err
+		}
+		vt.Label("cuts-before-the-complete-encoding")
 	}
 	vt.LabelN("cuts", int64(len(cuts)))
 	if c.BigLen > 0 {
